@@ -296,6 +296,14 @@ def run(ctx):
         ctx.check(A.peel(e[2][2]) == ("param", 3) and A.path_str(e[2][1]) == "param1.name", "C06.5", "better_ns:caller@%s" % A.path_str(e[2][0]),
                   "called with (section, question.name, current_match_count)", "called with %s" % [A.show(a) for a in e[2]], fn.loc(b))
 
+    # a referral is accepted only if it is deeper than the delegation in use - and "in use" is updated when one is taken
+    from . import C08 as _c08
+    rn_, rr_, mc_, ch_ = _c08.candidate_loop_vars(prog)
+    if mc_ is not None and ch_ is not None:
+        _c08.match_count_rule(ctx, "C06.5", rn_, rr_, mc_, ch_, REC + "resolve_with_nameserver_response")
+    else:
+        ctx.bad("C06.5", "work-list:variables", "candidate loop variables not found", rn_.loc())
+
     # ---------------------------------------------------------------- C06.7
     NR = REC + "NameserverResponse"
     cons = A.who_constructs(prog, NR)
